@@ -24,7 +24,7 @@ int vprop_cpu_limit_s = 20;
 const char *vprop_class_names[V_NCLASS] = {
   "valid", "mutated", "over_limit", "target_avx", "target_sse", "target_mmx", "target_altivec", "target_neon", "target_mips",
   "target_c64x", "target_c", "odd_flags", "result_ok", "result_nonfatal_failure", "result_fatal", "ran_native", "ran_fallback",
-  "long_program_ge_50", "valid_program_got_fatal_result", "systematic_single_instruction", NULL
+  "long_program_ge_50", "valid_program_got_fatal_result", "systematic_single_instruction", "mutated_program_accepted_and_emulated", NULL
 };
 
 static const char *tnames[8] = { "avx", "sse", "mmx", "altivec", "neon", "mips", "c64x-c", "c" };
@@ -36,24 +36,114 @@ static void quiet_print (int level, const char *file, const char *func, int line
   if (level == ORC_DEBUG_ERROR) { fprintf (stderr, "ORC ERROR %s:%d %s: ", file, line, func); vfprintf (stderr, fmt, args); fputc ('\n', stderr); }
 }
 
+/* ---- which opcodes cost a back end most: measured, not known.  Every opcode of simple shape is compiled alone for every target;
+   the listing is scanned for label definitions and literal-pool style lines and the code size is read.  The "resource-heavy"
+   over-limit programs then chain the top N distinct opcodes of one ranking, which is what fills per-opcode tables (labels,
+   fixups, pooled constants) and the code buffer ---- */
+#define RANK_MAX 64
+static int rank_ops[8][3][RANK_MAX], rank_n[8][3];
+static const char *rk_tn[9] = { 0, "pt1", "pt2", 0, "pt4", 0, 0, 0, "pt8" }, *rk_un[9] = { 0, "pu1", "pu2", 0, "pu4", 0, 0, 0, "pu8" };
+static const char *rk_sn[9] = { 0, "ps1", "ps2", 0, "ps4", 0, 0, 0, "ps8" }, *rk_cp[9] = { 0, "copyb", "copyw", 0, "copyl", 0, 0, 0, "copyq" };
+static int rank_simple (const VOp *op)
+{
+  if (op->flags & (VOP_LOAD | VOP_STORE | VOP_ACC | VOP_SCALAR | VOP_INVARIANT)) return 0;
+  if (op->dsz[1] || op->ssz[2] || !op->ssz[0] || op->dsz[0] > 8 || op->ssz[0] > 8 || op->ssz[1] > 8) return 0;
+  return 1;
+}
+static void rank_prologue (OrcProgram *p)
+{
+  int q;
+  orc_program_add_destination (p, 1, "pd");
+  for (q = 1; q <= 8; q *= 2) { orc_program_add_source (p, q, rk_sn[q]); orc_program_add_temporary (p, q, rk_tn[q]); orc_program_add_temporary (p, q, rk_un[q]); }
+  for (q = 1; q <= 8; q *= 2) { orc_program_append_str (p, rk_cp[q], rk_tn[q], rk_sn[q], NULL); orc_program_append_str (p, rk_cp[q], rk_un[q], rk_sn[q], NULL); }
+}
+static void rank_init (void)
+{
+  int t, o, m, i, j;
+  static long score[2][256];
+  for (t = 0; t < 8; t++) {
+    OrcTarget *target = orc_target_get_by_name (tnames[t]);
+    unsigned tf = orc_target_get_default_flags (target);
+    long base[2] = { 0, 0 };
+    for (o = -1; o < v_noptab && o < 256; o++) {
+      OrcProgram *p;
+      OrcCompileResult res;
+      const char *a;
+      long lab = 0, size = 0;
+      if (o >= 0) {
+        OrcStaticOpcode *so = orc_opcode_find_by_name (v_optab[o].name);
+        score[0][o] = score[1][o] = -1;
+        if (!rank_simple (&v_optab[o]) || !so || !orc_target_get_rule (target, so, tf)) continue;
+      }
+      p = orc_program_new ();
+      rank_prologue (p);
+      if (o >= 0) orc_program_append_str (p, v_optab[o].name, rk_un[v_optab[o].dsz[0]], rk_tn[v_optab[o].ssz[0]], v_optab[o].ssz[1] ? rk_tn[v_optab[o].ssz[1]] : NULL);
+      orc_program_append_str (p, "copyb", "pd", "pu1", NULL);
+      res = orc_program_compile_full (p, target, tf);
+      if (ORC_COMPILE_RESULT_IS_SUCCESSFUL (res) && p->orccode && (a = orc_program_get_asm_code (p)) != NULL) {
+        const char *q;
+        for (q = a; *q; q++) {
+          if (*q == ':' && (q[1] == '\n' || q[1] == 0)) lab++;              /* a label definition ends its line */
+          if (*q == '.' && (!strncmp (q, ".long", 5) || !strncmp (q, ".word", 5) || !strncmp (q, ".quad", 5))) lab++;
+        }
+        size = p->orccode->code_size;
+        if (o < 0) { base[0] = lab; base[1] = size; }
+        else { score[0][o] = lab - base[0]; score[1][o] = size - base[1]; }
+      }
+      orc_program_free (p);
+    }
+    /* rankings: 0 most labels/pool lines first, 1 largest code first, 2 fewest (but at least one) labels/pool lines first - the
+       opcodes that need one table entry each fill a table while using little else */
+    for (m = 0; m < 3; m++) {
+      int sm = m == 1 ? 1 : 0;
+      rank_n[t][m] = 0;
+      for (i = 0; i < RANK_MAX; i++) {
+        int best = -1;
+        for (o = 0; o < v_noptab && o < 256; o++) {
+          int used = 0;
+          if (score[sm][o] < 0) continue;
+          if (m == 2 && score[sm][o] == 0) continue;
+          for (j = 0; j < rank_n[t][m]; j++) if (rank_ops[t][m][j] == o) used = 1;
+          if (used) continue;
+          if (best < 0 || (m == 2 ? score[sm][o] < score[sm][best] : score[sm][o] > score[sm][best])) best = o;
+        }
+        if (best < 0) break;
+        rank_ops[t][m][rank_n[t][m]++] = best;
+      }
+    }
+  }
+}
+
 void vprop_init (int argc, char **argv)
 {
   (void) argc; (void) argv;
   orc_init ();
   orc_debug_set_print_function (quiet_print);
   sys_set = orc_opcode_set_get ("sys");
+  rank_init ();
 }
 /* enumerated stage: one case per (opcode, prefix); the case walks every operand position x every way of spoiling it x array/temporary
  * operands x every target inside the child */
-uint64_t vprop_enum_count (const char *tier) { (void) tier; return (uint64_t) v_noptab * 3; }
-size_t vprop_enum_stream (uint64_t i, uint32_t *out, size_t max) { (void) max; out[0] = 0xE5E5E5E5u; out[1] = (uint32_t) (i / 3); out[2] = (uint32_t) (i % 3); return 3; }
+/* then: 8 targets x 2 rankings x every length 3..52 of the "N most expensive opcodes, one instruction each" programs */
+#define N_HEAVY_ENUM (8 * 3 * 50)
+uint64_t vprop_enum_count (const char *tier) { (void) tier; return (uint64_t) v_noptab * 3 + N_HEAVY_ENUM; }
+size_t vprop_enum_stream (uint64_t i, uint32_t *out, size_t max)
+{
+  (void) max;
+  if (i >= (uint64_t) v_noptab * 3) {
+    uint64_t k = i - (uint64_t) v_noptab * 3;
+    out[0] = 0xE5E5E5E6u; out[1] = (uint32_t) (k % 8); out[2] = (uint32_t) ((k / 8) % 3); out[3] = 3 + (uint32_t) (k / 24);
+    return 4;
+  }
+  out[0] = 0xE5E5E5E5u; out[1] = (uint32_t) (i / 3); out[2] = (uint32_t) (i % 3); return 3;
+}
 
 static int declared[ORC_N_VARIABLES], n_declared;
 static void collect_declared (OrcProgram *p)
 {
   int i;
   n_declared = 0;
-  for (i = 0; i < ORC_N_VARIABLES; i++) if (p->vars[i].size) declared[n_declared++] = i;
+  for (i = 0; i < ORC_N_VARIABLES; i++) if (p->vars[i].name) declared[n_declared++] = i;   /* by name: variables of size 0 count */
 }
 static int any_var (VChoices *c)
 {
@@ -74,10 +164,11 @@ static const char *var_name (OrcProgram *p, VChoices *c)
  * spoiled: odd size, wrong class, or an undeclared variable */
 static void near_valid (OrcProgram *p, VChoices *c, VResult *r, int k)
 {
-  static const int odd_sizes[] = { 3, 16, 5, 1, 2, 4, 8, 32, 6, 12 };
+  static const int odd_sizes[] = { 3, 16, 5, 1, 2, 4, 8, 32, -1, 0 };
   const VOp *op = &v_optab[vc_pick (c, (uint32_t) v_noptab)];
   static const unsigned pf[3] = { 0, ORC_INSTRUCTION_FLAG_X2, ORC_INSTRUCTION_FLAG_X4 };
-  uint32_t pi = vc_pick (c, 3);
+  uint32_t praw = vc_u32 (c), pi = praw % 3;
+  unsigned extra = (praw / 3) % 4 == 3 ? 1u << (2 + (praw / 12) % 6) : 0;    /* a flag bit that is not a prefix (upper bits of the same choice) */
   int mult = pi == 0 ? 1 : pi == 1 ? 2 : 4, npos = 0, pos, args[5] = { 0, 0, 0, 0, 0 }, j, spoil;
   uint32_t how = vc_pick (c, 4);
   char nm[24];
@@ -117,11 +208,14 @@ static void near_valid (OrcProgram *p, VChoices *c, VResult *r, int k)
   }
   v_desc (r, " spoiled position %d how %u\n", spoil, how);
   /* operands are passed destinations first, then sources, as orc_program_append_2 expects */
-  orc_program_append_2 (p, op->name, pf[pi], args[0], args[1], args[2], args[3]);
+  if (extra) v_desc (r, "mutation: ... with extra flag bits 0x%x\n", extra);
+  orc_program_append_2 (p, op->name, pf[pi] | extra, args[0], args[1], args[2], args[3]);
 }
 
-static const int sys_sizes[] = { 3, 16, 5, 32, 1, 2, 4, 8, 6 };
-#define N_SPOIL (9 + 4)        /* 9 sizes, wrong class, constant/accumulator in the wrong role, undeclared variable, nothing spoiled */
+static const int sys_sizes[] = { 3, 16, 5, 32, 1, 2, 4, 8, 6, 0, -1 };
+#define N_SIZES 11
+#define N_SPOIL (N_SIZES + 6)  /* 11 sizes, wrong class, constant/accumulator in the wrong role, undeclared variable, flag bit 2, flag bit 3, nothing spoiled */
+static void emulate_accepted (OrcProgram *p, VResult *r, const char *tname);
 static void classify (OrcProgram *p, OrcCompileResult res, int t, VResult *r, const char *what)
 {
   char sig[V_SIG_MAX];
@@ -168,16 +262,16 @@ static void systematic (VResult *r, int o, int pi)
           OrcCompileResult res;
           int pos = 0, args[5] = { 0, 0, 0, 0, 0 };
           char nm[16];
-          if (sk == N_SPOIL - 1 && spoil > 0) { orc_program_free (p); continue; }      /* "nothing spoiled" once */
+          if (sk >= N_SIZES + 3 && spoil > 0) { orc_program_free (p); continue; }      /* "nothing spoiled" and the flag bits once */
           for (j = 0; j < 2; j++) {
             int size;
             if (!op->dsz[j]) continue;
             size = (op->flags & VOP_ACC) ? op->dsz[j] : op->dsz[j] * mult;
             snprintf (nm, sizeof nm, "d%d", j);
-            if (pos == spoil && sk < 9) size = sys_sizes[sk];
-            if (pos == spoil && sk == 9) args[pos] = orc_program_add_source (p, size, nm);
-            else if (pos == spoil && sk == 10) args[pos] = orc_program_add_constant (p, size, 5, nm);
-            else if (pos == spoil && sk == 11) args[pos] = ORC_VAR_T1 + 7;
+            if (pos == spoil && sk < N_SIZES) size = sys_sizes[sk];
+            if (pos == spoil && sk == N_SIZES) args[pos] = orc_program_add_source (p, size, nm);
+            else if (pos == spoil && sk == N_SIZES + 1) args[pos] = orc_program_add_constant (p, size, 5, nm);
+            else if (pos == spoil && sk == N_SIZES + 2) args[pos] = ORC_VAR_T1 + 7;
             else if (op->flags & VOP_ACC) args[pos] = orc_program_add_accumulator (p, size, nm);
             else if (variant == 0) args[pos] = orc_program_add_destination (p, size, nm);
             else args[pos] = orc_program_add_temporary (p, size, nm);
@@ -188,20 +282,23 @@ static void systematic (VResult *r, int o, int pi)
             if (!op->ssz[j]) continue;
             size = (scalar || ((op->flags & VOP_LOAD) && j == 0)) ? op->ssz[j] : op->ssz[j] * mult;
             snprintf (nm, sizeof nm, "s%d", j);
-            if (pos == spoil && sk < 9) size = sys_sizes[sk];
-            if (pos == spoil && sk == 9) args[pos] = orc_program_add_destination (p, size, nm);
-            else if (pos == spoil && sk == 10) args[pos] = orc_program_add_accumulator (p, size, nm);
-            else if (pos == spoil && sk == 11) args[pos] = ORC_VAR_T1 + 9;
+            if (pos == spoil && sk < N_SIZES) size = sys_sizes[sk];
+            if (pos == spoil && sk == N_SIZES) args[pos] = orc_program_add_destination (p, size, nm);
+            else if (pos == spoil && sk == N_SIZES + 1) args[pos] = orc_program_add_accumulator (p, size, nm);
+            else if (pos == spoil && sk == N_SIZES + 2) args[pos] = ORC_VAR_T1 + 9;
             else if (scalar) args[pos] = variant == 0 ? orc_program_add_constant (p, size, 3, nm) : orc_program_add_parameter (p, size, nm);
             else if (variant == 0 || ((op->flags & VOP_LOAD) && j == 0)) args[pos] = orc_program_add_source (p, size, nm);
             else { args[pos] = orc_program_add_temporary (p, size, nm); }
             pos++;
           }
-          orc_program_append_2 (p, op->name, pf[pi], args[0], args[1], args[2], args[3]);
+          /* flag bits other than the prefixes belong to the compiler (invariant, added): callers may pass anything */
+          orc_program_append_2 (p, op->name, pf[pi] | (sk == N_SIZES + 3 ? 1u << 2 : sk == N_SIZES + 4 ? 1u << 3 : 0), args[0], args[1], args[2], args[3]);
           snprintf (what, sizeof what, "%s%s position %d spoil %d variant %d target %s", mult == 2 ? "x2 " : mult == 4 ? "x4 " : "", op->name, spoil, sk, variant, tnames[t]);
           v_stage (r, "compile %s", what);
           res = orc_program_compile_full (p, orc_target_get_by_name (tnames[t]), orc_target_get_default_flags (orc_target_get_by_name (tnames[t])));
           classify (p, res, t, r, what);
+          /* what the compiler accepts "stays runnable by emulation" */
+          if (r->verdict != V_FAIL && !ORC_COMPILE_RESULT_IS_FATAL (res) && p->orccode && (t == 0 || t == 7)) emulate_accepted (p, r, tnames[t]);
           orc_program_free (p);
           r->sub_evals++;
           if (r->verdict == V_FAIL) return;
@@ -225,7 +322,9 @@ static void mutate (OrcProgram *p, VChoices *c, VResult *r)
     switch (m) {
       case 0: case 1: case 2: {
         int a0 = any_var (c), a1 = any_var (c), a2 = any_var (c), a3 = any_var (c);
-        unsigned f = prefix[vc_pick (c, 4)];
+        uint32_t fraw = vc_u32 (c);
+        unsigned f = prefix[fraw % 4];
+        if ((fraw / 4) % 4 == 3) f |= 1u << (2 + (fraw / 16) % 8);      /* bits that are not prefixes (upper bits of the same choice) */
         v_desc (r, "mutation: append_2 %s flags=%u args %d %d %d %d\n", opname, f, a0, a1, a2, a3);
         orc_program_append_2 (p, opname, f, a0, a1, a2, a3);
         break;
@@ -241,7 +340,9 @@ static void mutate (OrcProgram *p, VChoices *c, VResult *r)
       }
       case 6: {
         const char *a = var_name (p, c), *b = var_name (p, c), *d = var_name (p, c), *e = var_name (p, c);
-        unsigned f = prefix[vc_pick (c, 4)];
+        uint32_t fraw = vc_u32 (c);
+        unsigned f = prefix[fraw % 4];
+        if ((fraw / 4) % 4 == 3) f |= 1u << (2 + (fraw / 16) % 8);
         v_desc (r, "mutation: append_str_2 %s flags=%u '%s' '%s' '%s' '%s'\n", opname, f, a, b, d, e);
         orc_program_append_str_2 (p, opname, f, a, b, d, vc_chance (c, 1, 2) ? e : NULL);
         break;
@@ -249,7 +350,9 @@ static void mutate (OrcProgram *p, VChoices *c, VResult *r)
       case 7: { const char *a = var_name (p, c), *b = var_name (p, c); v_desc (r, "mutation: append_ds_str %s '%s' '%s'\n", opname, a, b); orc_program_append_ds_str (p, opname, a, b); break; }
       case 8: { const char *a = var_name (p, c), *b = var_name (p, c), *d = var_name (p, c); v_desc (r, "mutation: append_dds_str %s '%s' '%s' '%s'\n", opname, a, b, d); orc_program_append_dds_str (p, opname, a, b, d); break; }
       case 9: {
-        int size = odd_sizes[vc_pick (c, 10)];
+        uint32_t sraw = vc_u32 (c);
+        int size = odd_sizes[sraw % 10];
+        if ((sraw / 10) % 5 == 4) size = -(1 + (int) ((sraw / 50) % 9));      /* negative sizes (upper bits of the same choice) */
         uint32_t cls = vc_pick (c, 7);
         v_desc (r, "mutation: add variable class %u size %d name %s\n", cls, size, nm);
         switch (cls) {
@@ -286,9 +389,9 @@ static void mutate (OrcProgram *p, VChoices *c, VResult *r)
   }
 }
 
-static void over_limit (OrcProgram *p, VChoices *c, VResult *r)
+static void over_limit (OrcProgram *p, VChoices *c, VResult *r, OrcTarget *target, unsigned target_flags)
 {
-  uint32_t what = vc_pick (c, 11);
+  uint32_t wraw = vc_u32 (c), what = wraw % 11;
   int count, k;
   char nm[24];
   switch (what) {
@@ -299,6 +402,41 @@ static void over_limit (OrcProgram *p, VChoices *c, VResult *r)
       };
       uint32_t h = vc_pick (c, 10);
       const char *cp = heavy[h].dsz == 2 ? "copyw" : heavy[h].dsz == 4 ? "copyl" : "copyq";
+      if ((wraw / 11) % 3 == 1) {
+        /* many arrays and a long chain: back ends that emit one loop per alignment combination of the arrays (MIPS) multiply
+           the body by the number of combinations */
+        static const char *bops[] = { "addb", "subb", "avgub", "addb", "subb", "avgub", "addb", "addb" };   /* the byte operations every back end has rules for */
+        int ns = 4 + (int) (h % 4), q;
+        count = 16 + (int) vc_pick (c, 60);
+        orc_program_add_destination (p, 1, "wd");
+        for (q = 0; q < ns; q++) { snprintf (nm, sizeof nm, "ws%d", q); orc_program_add_source (p, 1, nm); }
+        orc_program_add_temporary (p, 1, "wt");
+        v_desc (r, "over-limit: %d byte operations over %d source arrays\n", count, ns);
+        orc_program_append_str (p, "copyb", "wt", "ws0", NULL);
+        for (k = 0; k < count; k++) { snprintf (nm, sizeof nm, "ws%d", k % ns); orc_program_append_str (p, bops[(k + (int) h) % 8], "wt", "wt", nm); }
+        orc_program_append_str (p, "copyb", "wd", "wt", NULL);
+        break;
+      }
+      if ((wraw / 11) % 3 == 2) {
+        /* the N opcodes that, compiled alone for this target, define the most labels / pool entries (or produce the most code),
+           one instruction each: fills per-opcode tables (labels, fixups, pooled constants) and the code buffer */
+        int tt = 0, m = (int) (h % 3), skip = (int) ((h / 3) % 3), done = 0;
+        for (tt = 0; tt < 8; tt++) if (orc_target_get_by_name (tnames[tt]) == target) break;
+        if (tt == 8) tt = 0;
+        count = 4 + (int) vc_pick (c, 48);
+        rank_prologue (p);
+        v_desc (r, "over-limit: the %d opcodes with the %s when compiled alone for %s (skipping the first %d), one instruction each:", count,
+            m == 1 ? "largest code" : m == 2 ? "fewest (at least one) labels and pool entries" : "most labels and pool entries", tnames[tt], skip);
+        for (k = skip; k < rank_n[tt][m] && done < count; k++) {
+          const VOp *op = &v_optab[rank_ops[tt][m][k]];
+          orc_program_append_str (p, op->name, rk_un[op->dsz[0]], rk_tn[op->ssz[0]], op->ssz[1] ? rk_tn[op->ssz[1]] : NULL);
+          v_desc (r, " %s", op->name);
+          done++;
+        }
+        v_desc (r, "\n");
+        orc_program_append_str (p, "copyb", "pd", "pu1", NULL);
+        break;
+      }
       count = 20 + (int) vc_pick (c, 42);
       orc_program_add_destination (p, heavy[h].dsz, "hd");
       orc_program_add_source (p, heavy[h].ssz, "hs1");
@@ -353,6 +491,65 @@ static void over_limit (OrcProgram *p, VChoices *c, VResult *r)
   }
 }
 
+static void heavy_enum (VResult *r, int t, int m, int count)
+{
+  OrcProgram *p = orc_program_new ();
+  OrcTarget *target = orc_target_get_by_name (tnames[t]);
+  OrcCompileResult res;
+  char what[120];
+  int k;
+  rank_prologue (p);
+  v_desc (r, "# C05 the %d opcodes with the %s when compiled alone for %s, one instruction each:", count, m == 1 ? "largest code" : m == 2 ? "fewest (at least one) labels and pool entries" : "most labels and pool entries", tnames[t]);
+  for (k = 0; k < rank_n[t][m] && k < count; k++) {
+    const VOp *op = &v_optab[rank_ops[t][m][k]];
+    orc_program_append_str (p, op->name, rk_un[op->dsz[0]], rk_tn[op->ssz[0]], op->ssz[1] ? rk_tn[op->ssz[1]] : NULL);
+    v_desc (r, " %s", op->name);
+  }
+  v_desc (r, "\n");
+  orc_program_append_str (p, "copyb", "pd", "pu1", NULL);
+  snprintf (what, sizeof what, "%d most expensive opcodes (ranking %d) target %s", count, m, tnames[t]);
+  v_stage (r, "compile %s", what);
+  res = orc_program_compile_full (p, target, orc_target_get_default_flags (target));
+  v_desc (r, "  -> %s%s%s\n", v_result_name (res), p->error_msg ? ": " : "", p->error_msg ? p->error_msg : "");
+  classify (p, res, t, r, what);
+  orc_program_free (p);
+  r->classes |= (1u << 2) | (1u << (3 + t));
+  r->sub_evals = 1; r->sub_nontrivial = 1; r->nontrivial = 1;
+  r->hash = 0xE6000000u + (uint64_t) (t * 1000 + m * 100 + count);
+}
+
+/* a program the compiler did not reject (any non-fatal result) "stays runnable by emulation": arbitrary API calls went into it, so
+   there is no model of what it computes, only that emulating it on ample arrays does not crash (ASan watches the emulator's own
+   storage).  Programs with offset / resampling / upsampling loads are left out: their index operands are arbitrary here. */
+static void emulate_accepted (OrcProgram *p, VResult *r, const char *tname)
+{
+  static unsigned char pool[ORC_N_VARIABLES][8192];
+  OrcExecutor ex;
+  int i;
+  for (i = 0; i < p->n_insns; i++) {
+    const char *nm = p->insns[i].opcode ? p->insns[i].opcode->name : "";
+    if (!strncmp (nm, "loadoff", 7) || !strncmp (nm, "ldres", 5) || !strncmp (nm, "loadup", 6)) return;
+  }
+  memset (&ex, 0, sizeof ex);
+  orc_executor_set_program (&ex, p);
+  orc_executor_set_n (&ex, 3);
+  if (p->is_2d) orc_executor_set_m (&ex, 2);
+  for (i = 0; i < ORC_N_VARIABLES; i++) {
+    if (!p->vars[i].name) continue;
+    if (p->vars[i].vartype == ORC_VAR_TYPE_SRC || p->vars[i].vartype == ORC_VAR_TYPE_DEST) {
+      memset (pool[i], 0x11, sizeof pool[i]);
+      ex.arrays[i] = pool[i] + 1024;
+      if (p->is_2d) ex.params[i] = 512;
+    } else if (p->vars[i].vartype == ORC_VAR_TYPE_PARAM) {
+      ex.params[i] = 1;
+    }
+  }
+  v_stage (r, "emulate accepted mutated program target=%s", tname);
+  orc_executor_emulate (&ex);
+  r->classes |= 1u << 20;
+  r->sub_evals++;
+}
+
 void vprop_case (VChoices *c, VResult *r)
 {
   static ProgSpec ps;
@@ -364,6 +561,7 @@ void vprop_case (VChoices *c, VResult *r)
   uint64_t h;
 
   if (c->n >= 3 && c->v[0] == 0xE5E5E5E5u) { systematic (r, (int) c->v[1], (int) (c->v[2] % 3)); return; }
+  if (c->n >= 4 && c->v[0] == 0xE5E5E5E6u) { heavy_enum (r, (int) (c->v[1] % 8), (int) (c->v[2] % 3), (int) (c->v[3] % 64)); return; }
   gen_opts_default (&go);
   go.allow_float = 1;
   go.max_insns = 20;
@@ -405,7 +603,7 @@ void vprop_case (VChoices *c, VResult *r)
     v_stage (r, "build");
     p = ps_build (&ps);
     if (mode == 2) mutate (p, c, r);
-    if (mode == 3) over_limit (p, c, r);
+    if (mode == 3) over_limit (p, c, r, target, flags);
     v_desc (r, "compile for %s flags 0x%x (default 0x%x)\n", tnames[t], flags, dflt);
     v_stage (r, "compile target=%s flags=0x%x", tnames[t], flags);
     res = orc_program_compile_full (p, target, flags);
@@ -481,6 +679,7 @@ void vprop_case (VChoices *c, VResult *r)
         }
       }
     }
+    if (mode == 2 && !ORC_COMPILE_RESULT_IS_FATAL (res) && p->orccode && r->verdict != V_FAIL) emulate_accepted (p, r, tnames[t]);
     v_stage (r, "free target=%s", tnames[t]);
     orc_program_free (p);
     r->sub_evals++;
